@@ -594,7 +594,30 @@ pub fn run(tier: Tier, replay: Option<&str>) {
     // ---- Layer A
     for region in &regions {
         let singles = cmds::single_commands(region, th);
-        let blocks = cmds::link_adr_blocks(th);
+        let mut blocks = cmds::link_adr_blocks(th);
+        // streams whose answers reach and cross the 15-byte answer budget at every position: k requests with a
+        // 3-byte answer followed by requests with 2- and 1-byte answers; and long runs of one request
+        {
+            let f = cmds::freq_bytes(cmds::freqs(region)[7]);
+            let tails: Vec<Vec<u8>> = vec![vec![0x05, 0x00, f[0], f[1], f[2]], vec![0x08, 0x03], cmds::link_adr(15, 15, 0xFFFF, 0, 1, false).bytes, vec![0x06]];
+            for k in 0..=6usize {
+                for t in &tails {
+                    for t2 in &tails {
+                        let mut b = vec![0x06; k];
+                        b.extend(t);
+                        b.extend(t2);
+                        blocks.push(Cmd { name: format!("budget-{k}xDevStatusReq"), bytes: b });
+                    }
+                }
+            }
+            for n in 6..=9usize {
+                let mut b = vec![];
+                for _ in 0..n {
+                    b.extend(cmds::link_adr(15, 15, 0xFFFF, 0, 1, false).bytes);
+                }
+                blocks.push(Cmd { name: format!("{n}xLinkADRReq"), bytes: b });
+            }
+        }
         let jas = cmds::join_accepts(region, th);
         for front in ["nb", "async", "async-c"] {
             // the MAC is shared between the front-ends: the async front-ends get the reduced domain
